@@ -82,7 +82,7 @@ def bounds(tier):
     return out
 
 
-def shards(tier):
+def _shards_main(tier):
     from mc.ref import rd_terms as T
     b = BOUNDS[tier]
     out = []
@@ -365,7 +365,7 @@ def run_text(acc, r, do_repl, cache, repl_seen, case_base, only_cut=None, only_l
         check_cut(acc, r, snaps, i, only_leg in (None, "read"), rp, cache, case_base)
 
 
-def run_shard(shard, tier):
+def _run_shard_main(shard, tier):
     from mc.ref import rd_terms as T
     b = BOUNDS[tier]
     acc = Acc()
@@ -405,7 +405,7 @@ def _contains(t, kind):
     return False
 
 
-def recheck(case, tier):
+def _recheck_main(case, tier):
     from mc.ref import rd_terms as T
     acc = Acc()
     prog = T.from_jsonable(case["term"])
@@ -431,3 +431,45 @@ def snippet(d):
             "try:\n    print(list(hy.read_many(prefix)))\nexcept hy.PrematureEndOfInput as e:\n    print('PrematureEndOfInput')\n"
             "except Exception as e:\n    print(type(e).__name__, e)\n"
             "# C19: inside-open-construct / after-prefix => PrematureEndOfInput only; between-forms => no error\n")
+
+
+# ---------------------------------------------------------------- reader reuse leg (E2: histories of two reads on ONE reader)
+def shards(tier):
+    return list(_shards_main(tier)) + [["reuse-leg"]]
+
+
+def _reuse_case(acc, t1, t2, how):
+    from mc.ref import rd_reuse
+    fresh, reused = rd_reuse.run_pair(t1, t2, how)
+    acc.states += 1
+    acc.transitions += 2
+    acc.traces += 1
+    acc.evaluations += 2
+    acc.nontrivial += 1
+    acc.outcome("reuse:" + fresh[0] + "/" + reused[0])
+    if fresh[0] == "PrematureEndOfInput" and reused[0] != "PrematureEndOfInput":
+        acc.disagree("reused-reader-no-premature-end-of-input", {"reuse": [t1, t2, how]},
+                     f"after reading {t1!r} ({how}) with a HyReader, reading {t2!r} with the SAME reader gave {str(reused)[:200]}; a fresh reader gives {str(fresh)[:200]}",
+                     sig="reused-reader-no-premature-end-of-input:" + reused[0], how=how)
+
+
+def run_shard(shard, tier):
+    if shard == ["reuse-leg"]:
+        from mc.util import Acc as _Acc
+        from mc.ref import rd_reuse
+        acc = _Acc()
+        for i, (t1, t2, how) in enumerate(rd_reuse.pairs()):
+            _reuse_case(acc, t1, t2, how)
+            if i % 487 == 0:
+                acc.sample({"first_source": t1, "second_source": t2, "first_read": how})
+        return acc.result()
+    return _run_shard_main(shard, tier)
+
+
+def recheck(case, tier):
+    if "reuse" in case:
+        from mc.util import Acc as _Acc
+        acc = _Acc()
+        _reuse_case(acc, *case["reuse"])
+        return acc.disagreements
+    return _recheck_main(case, tier)
